@@ -746,6 +746,38 @@ class C16(Spec):
                  "cases": r["tried"], "failures": r["failures"], "replay_kind": "reg", "label": "bounded (not counted as proof)"}]
 
 
+class C17(Spec):
+    pid = "C17"
+    level = "other"
+    design_ref = "DESIGN.md section 8 C17"
+    trusted = ["tree nodes are an abstract model: a node is a term, its children (defaultdict, created on demand), error map and recorded instance are uninterpreted functions of it; dict / defaultdict behave as maps that raise TypeError only for unhashable keys (assumed)",
+               "that total_errors' defining equation gives the number of distinct (path, keyword) pairs needs the representation invariant established by the constructor, which is covered only by the bounded stand-in"]
+    assumptions = ["path elements are str or int, the keyword is a str or None (what validation produces)",
+                   "the constructor's functional half (every error filed where its path says, membership / iteration / counts on the finished tree) is checked by the bounded stand-in over every arrival order - labelled bounded, not proof"]
+    explanation = "Proved: the constructor raises nothing for any sequence of errors in any order (inner-loop invariant: `container` is the node reached after k path elements; with the pre-fix code the same obligation fails because __getitem__ indexes the recorded instance); __contains__, __getitem__ (returns the child; raises only what instance[index] raises and only for an absent index with a recorded instance), __setitem__, __iter__ (all children), __len__ == total_errors; total_errors == len(errors) + sum of len(child) over every child, recursive calls by contract."
+
+    def tasks(self, root, tier):
+        from contracts import tasks_tree
+        return tasks_tree.tree_tasks(root, _tmo(tier))
+
+    def select(self, ob, r):
+        return True
+
+    def failure_kinds(self):
+        return ("T",)
+
+    def table_obligations(self, repo, tabs):
+        w, _ = write_frame_obligations(repo, tabs, ["exceptions:ErrorTree.__contains__", "exceptions:ErrorTree.__iter__", "exceptions:ErrorTree.__len__",
+                                                    "exceptions:ErrorTree.total_errors"], [], "ErrorTree queries")
+        return [r for r in w if not r["name"].startswith("frames/")]
+
+    def standins(self, root, tier):
+        from pyvc import driver
+        r = driver.rt_call("pyvc.rt_tree", {"cmd": "search", "root": root}, root, timeout=3000)
+        return [{"name": "trees-in-every-arrival-order", "scope": "12 validation scenarios (draft-3 required next to additionalProperties, propertyNames, dotted and bracketed property names beside nested locations, arrays of objects, several keywords per location) + 2 hand-made error sets with repeated (path, keyword); every permutation of the errors (<= 5) or both directions; path walk, membership, iteration, total_errors/len at every node, empty tree for error-free elements",
+                 "cases": r["tried"], "failures": r["failures"], "replay_kind": "tree", "label": "bounded (not counted as proof)"}]
+
+
 class C18(Spec):
     pid = "C18"
     level = "other"
@@ -842,4 +874,4 @@ class C08(Spec):
         return out
 
 
-SPECS = {"C01": C01, "C03": C03, "C04": C04, "C05": C05, "C11": C11, "C12": C12, "C13": C13, "C14": C14, "C16": C16, "C20": C20, "C07": C07, "C18": C18, "C06": C06, "C08": C08, "C09": C09, "C10": C10}
+SPECS = {"C01": C01, "C03": C03, "C04": C04, "C05": C05, "C11": C11, "C12": C12, "C13": C13, "C14": C14, "C16": C16, "C17": C17, "C20": C20, "C07": C07, "C18": C18, "C06": C06, "C08": C08, "C09": C09, "C10": C10}
